@@ -11,10 +11,13 @@ EVENT_OPS = [("wait", None), ("wait", "td"), ("wait", "abs"), ("wait", "zero"), 
              ("cancel", -1), ("adv",)]
 
 
-def gc_history():
+def gc_history(live_at=()):
     # three live waiters are queued while the collector prunes the timed-out ones: notify order stays FIFO
+    # (live_at: further waiters without timeout join after that many timeouts, between and behind the dead ones)
     hist = [("wait", None), ("wait", None), ("wait", None)]
-    for _ in range(103):
+    for k in range(103):
+        if k in live_at:
+            hist.append(("wait", None))
         hist += [("wait", "td"), ("adv",), ("adv",)]
     return hist + [("notify", 1), ("notify", 1), ("wait", None), ("wait", "td"), ("notify", 1), ("wait", None), ("adv",),
                    ("adv",), ("notify_all",)]
@@ -50,15 +53,16 @@ class C34(Check):
     def run_partition(self, part, tier, st):
         spec, i = part
         if spec == "gc":
-            hist = gc_history()
-            st.ev()
-            st.transitions += len(hist)
-            try:
-                canon, nf = syncmodel.run_history(("cond",), tuple(hist))
-                st.state(("gc", canon))
-            except syncmodel.Mismatch as m:
-                st.violation("gc:cond:%s" % m.what.split(" ")[0], "cond gc history: %s" % m,
-                             {"spec": ("cond",), "hist": hist})
+            for live_at in ((), (40, 100), (1, 99, 100), (50, 101)):
+                hist = gc_history(live_at) + [("notify", 1), ("notify", 1), ("notify", 2)]
+                st.ev()
+                st.transitions += len(hist)
+                try:
+                    canon, nf = syncmodel.run_history(("cond",), tuple(hist))
+                    st.state(("gc", live_at, canon))
+                except syncmodel.Mismatch as m:
+                    st.violation("gc:cond:%s" % m.what.split(" ")[0], "cond gc history (live waiters joining after %r "
+                                 "timeouts): %s" % (live_at, m), {"spec": ("cond",), "hist": hist})
             return
         ops = COND_OPS if spec[0] == "cond" else EVENT_OPS
         if i == "burst":
